@@ -12,7 +12,7 @@
 From PM Require Import Model.Prelude Model.Domain Model.CTree Model.CTreeChar Model.DomPGKeys
   Model.DomString Model.DomMatrix Spec.TreeSem
   Proofs.TreeProofs Proofs.TreeDomains Proofs.PowersetProofs Proofs.PGTreeProofs
-  Model.Constraint Model.DomPG Proofs.RunSound Proofs.TreeRootExclusive.
+  Model.Constraint Model.DomPG Proofs.RunSound Spec.TreeDet Proofs.TreeRootExclusive.
 
 (** helper constructors *)
 Theorem c10_with_children :
@@ -144,6 +144,27 @@ Theorem c10_pg_tree_root_exclusive :
         forall h m, inj_on m (cargs c1 ++ cargs c2) -> holds pg_dom h c1 m -> holds pg_dom h c2 m -> False.
 Proof. exact pg_tree_root_exclusive. Qed.
 
+(** Spec/TreeDet.v: [dreach] follows only the first satisfied child of the root;
+    [det_faithful] is [faithful] with [dreach].  When no two children of the root
+    hold together the two readings coincide. *)
+Theorem c10_det_faithful_of_exclusive :
+  forall (C : Type) (v : C -> bool) (T : ctree C) (cs : list C),
+    root_exclusive v T -> faithful v T cs -> det_faithful v T cs.
+Proof. exact @det_faithful_of_exclusive. Qed.
+
+(** hence: the port-graph tree of a list whose smallest constraint is IsConnected
+    or HasNodeWeight is faithful under the deterministic reading, on every host
+    and under every binding that is injective on the keys of the list ([pg_vb h m c]
+    is the verdict of is_satisfied, [pg_vb_holds]) *)
+Theorem c10_pg_mutex_tree_det_faithful :
+  forall cs fuel T first fi rest (h : pghost) (m : pgmap),
+    sort_with_indices pgc_cmp cs = (first, fi) :: rest -> is_ne first = false ->
+    pg_tree fuel cs = Ok T ->
+    (forall c, In c cs -> length (cargs c) = pg_arity (cpred c)) ->
+    inj_on m (flat_map cargs cs) ->
+    det_faithful (pg_vb h m) T cs.
+Proof. exact pg_mutex_tree_det_faithful. Qed.
+
 (** Non-vacuity of the above: two links leaving the same port *)
 Example c10_example_exclusive :
   let r := PathRoot 0 in let x := AlongPath 0 (POut 0) 1 in let y := AlongPath 0 (PIn 0) 1 in
@@ -171,3 +192,5 @@ Print Assumptions c10_pg_tree.
 Print Assumptions c10_sorted_head_is_minimal.
 Print Assumptions c10_transitive_mutex_root.
 Print Assumptions c10_pg_tree_root_exclusive.
+Print Assumptions c10_det_faithful_of_exclusive.
+Print Assumptions c10_pg_mutex_tree_det_faithful.
